@@ -279,6 +279,10 @@ func cmdCheck(args []string) int {
 			fmt.Printf("INCONCLUSIVE %s[%d]: solver unknown: %v %v\n", r.Harness, r.Shard, r.Inconclusive, r.Unknowns)
 			incon++
 		}
+		if len(r.Disagree) > 0 {
+			fmt.Printf("SOLVER-DISAGREEMENT %s[%d]: %v\n", r.Harness, r.Shard, r.Disagree)
+			incon++
+		}
 		if len(r.Solver.Errors) > 0 {
 			fmt.Printf("INCONCLUSIVE %s[%d]: solver errors: %v\n", r.Harness, r.Shard, r.Solver.Errors[:1])
 			incon++
@@ -376,7 +380,11 @@ func writeEvidence(e *Engine, prop, tier string, seed int, results []*JobResult,
 	var samples []interface{}
 	proved := map[string]int{}
 	cuts := map[string]int{}
+	var crossChecked, crossAgree, crossIncon int
 	for _, r := range results {
+		crossChecked += r.CrossChecked
+		crossAgree += r.CrossAgree
+		crossIncon += r.CrossInconclusive
 		for k, n := range r.Cuts {
 			cuts[k] += n
 		}
@@ -481,6 +489,7 @@ func writeEvidence(e *Engine, prop, tier string, seed int, results []*JobResult,
 			"solver":                                          strings.Join(solverCmd, " "),
 			"cover_points":                                    map[string]interface{}{"declared": decl, "reached": reach},
 			"known_findings_hit":                              known,
+			"cross_solver_recheck":                            map[string]interface{}{"obligations_sampled": crossChecked, "agreeing_unsat_verdicts_z3_4_8_12_and_cvc5": crossAgree, "inconclusive": crossIncon},
 			"inconclusive":                                    incon,
 			"encoding_regenerated_from":                       e.repo + " working tree (go/packages + go/ssa, this run)",
 			"load_s":                                          e.loadTime.Seconds(),
